@@ -40,6 +40,8 @@ var gapSeeds = [][]string{
 	{"a", "=", "<<EOT\n", "x\n", "EOT\n"},
 	{"a", "=", "b", ".", "1", ".", "e5", "\n"},
 	{"a", "=", "1", ".", "e5", ".", "E2", "\n"},
+	{"a", "=", "b", ".", "1", ".", "e-5", ".", "E-2x", "\n"},
+	{"a", "=", "1.5", ".", "e3", ".", "2", ".", "e2e_x", "\n"},
 	{"a", "=", "ns", "::", "f", "(", "1", ")", ".", "0", "\n"},
 }
 
